@@ -656,8 +656,6 @@ func (b *BaseStore) Sync(ctx context.Context, heads []ipfslog.Entry) error {
 			continue
 		}
 
-		loadable = append(loadable, h)
-
 		if h.GetNext() == nil {
 			h.SetNext([]cid.Cid{})
 		}
@@ -690,6 +688,10 @@ func (b *BaseStore) Sync(ctx context.Context, heads []ipfslog.Entry) error {
 		}
 
 		span.AddEvent("store-sync-head-verified")
+
+		// only a head that passed every check is handed to the replicator: a
+		// discarded one must not be fetched (nobody may ever serve its block)
+		loadable = append(loadable, h)
 	}
 
 	if len(loadable) == 0 {
